@@ -208,6 +208,8 @@ def decorations(x):
         Index(x, idx), Len(x), Index(Index(x, idx), idx), Len(Index(x, idx)), Un('-', Index(x, idx)), Is(Len(x), BYTE),
         Un('-', Len(x)), Call('f', [x]), Index(Call('f', [x]), idx), ArrLit([x, idx]), Index(ArrLit([x, idx]), idx),
         Spec(x, idx), Index(Un('-', x), idx), Len(Is(x, arr(BYTE, True))), Index(Bin('+', x, idx), idx),
+        Len(Call('f', [x])), Index(Index(Call('f', [x]), idx), idx), Un('-', Index(Call('f', [x]), idx)), Len(Index(Call('f', [x]), idx)),
+        Call('f', [Index(Call('g', [x]), idx), idx]), Len(ArrLit([x, idx])), Index(Lit('string', b'ab', None), x), Len(Lit('string', b'ab', None)),
     ]
 
 
